@@ -732,11 +732,87 @@ func ConstIntValue(v ssa.Value) (int64, bool) {
 func CorrelatedCuts(fn *ssa.Function, sink ssa.Instruction) map[Edge]bool {
 	out := map[Edge]bool{}
 	type iff struct {
-		b   *ssa.BasicBlock
-		v   ssa.Value
-		neg bool
+		b *ssa.BasicBlock
+		a CondAtom
 	}
 	var ifs []iff
+	for _, b := range fn.Blocks {
+		if len(b.Instrs) == 0 {
+			continue
+		}
+		ifi, ok := b.Instrs[len(b.Instrs)-1].(*ssa.If)
+		if !ok {
+			continue
+		}
+		ifs = append(ifs, iff{b, NormCond(ifi.Cond)})
+	}
+	sb := sink.Block()
+	for _, a := range ifs {
+		// which outcome of a dominates the sink?
+		for idx := 0; idx < 2; idx++ {
+			s := a.b.Succs[idx]
+			if len(s.Preds) != 1 || !s.Dominates(sb) {
+				continue
+			}
+			// truth of the atom on this edge: true-edge (idx 0) means cond true => atom == !Negated
+			val := (idx == 0) != a.a.Negated
+			for _, o := range ifs {
+				if o.b == a.b || !SameAtom(o.a, a.a) {
+					continue
+				}
+				// edge of o on which the atom == val is allowed; the other is cut
+				allowedIdx := 0
+				if val == o.a.Negated {
+					allowedIdx = 1
+				}
+				out[Edge{o.b, 1 - allowedIdx}] = true
+			}
+		}
+	}
+	return out
+}
+
+// SameAtom: two normalised conditions compute the same boolean on every execution: the same SSA
+// value, or the same comparison of identical SSA values / equal constants (go/ssa does no CSE, an
+// SSA value is immutable).
+func SameAtom(a, b CondAtom) bool {
+	if a.Op != b.Op {
+		return false
+	}
+	if a.Op == token.ILLEGAL {
+		return a.Val == b.Val
+	}
+	if sameOperand(a.X, b.X) && sameOperand(a.Y, b.Y) {
+		return true
+	}
+	return a.Op == token.EQL && sameOperand(a.X, b.Y) && sameOperand(a.Y, b.X)
+}
+
+func sameOperand(x, y ssa.Value) bool {
+	if x == y {
+		return true
+	}
+	kx, ok1 := x.(*ssa.Const)
+	ky, ok2 := y.(*ssa.Const)
+	if !ok1 || !ok2 || !types.Identical(kx.Type(), ky.Type()) {
+		return false
+	}
+	if kx.Value == nil || ky.Value == nil {
+		return kx.Value == nil && ky.Value == nil
+	}
+	return constant.Compare(kx.Value, token.EQL, ky.Value)
+}
+
+// Assumed: boolean SSA values with a known truth value for the duration of a correlated query;
+// guard-wrapper summaries prune the callee's branches that contradict them (after parameter
+// substitution).
+var Assumed map[ssa.Value]bool
+
+// DominatingConds: the boolean SSA values (NOT stripped) whose outcome is fixed by the branches
+// dominating the sink.
+func DominatingConds(fn *ssa.Function, sink ssa.Instruction) map[ssa.Value]bool {
+	out := map[ssa.Value]bool{}
+	sb := sink.Block()
 	for _, b := range fn.Blocks {
 		if len(b.Instrs) == 0 {
 			continue
@@ -753,29 +829,59 @@ func CorrelatedCuts(fn *ssa.Function, sink ssa.Instruction) map[Edge]bool {
 			}
 			break
 		}
-		ifs = append(ifs, iff{b, v, neg})
-	}
-	sb := sink.Block()
-	for _, a := range ifs {
-		// which outcome of a dominates the sink?
 		for idx := 0; idx < 2; idx++ {
-			s := a.b.Succs[idx]
-			if len(s.Preds) != 1 || !s.Dominates(sb) {
+			su := b.Succs[idx]
+			if len(su.Preds) != 1 || !su.Dominates(sb) {
 				continue
 			}
-			// value of V on this edge: true-edge (idx 0) means cond true => V == !neg
-			val := (idx == 0) != a.neg
-			for _, o := range ifs {
-				if o.b == a.b || o.v != a.v {
+			out[v] = (idx == 0) != neg
+		}
+	}
+	return out
+}
+
+// assumedCuts: edges of fn contradicting Assumed (conditions resolved through ParamSubst).
+func assumedCuts(fn *ssa.Function) map[Edge]bool {
+	out := map[Edge]bool{}
+	if len(Assumed) == 0 {
+		return out
+	}
+	for _, b := range fn.Blocks {
+		if len(b.Instrs) == 0 {
+			continue
+		}
+		ifi, ok := b.Instrs[len(b.Instrs)-1].(*ssa.If)
+		if !ok {
+			continue
+		}
+		v, neg := ifi.Cond, false
+		for {
+			if u, ok := v.(*ssa.UnOp); ok && u.Op == token.NOT {
+				v, neg = u.X, !neg
+				continue
+			}
+			break
+		}
+		if s, ok := ParamSubst[v]; ok {
+			v = s
+			for {
+				if u, ok := v.(*ssa.UnOp); ok && u.Op == token.NOT {
+					v, neg = u.X, !neg
 					continue
 				}
-				// edge of o on which V == val is allowed; the other is cut
-				allowedIdx := 0
-				if val == o.neg {
-					allowedIdx = 1
-				}
-				out[Edge{o.b, 1 - allowedIdx}] = true
+				break
 			}
+		}
+		val, known := Assumed[v]
+		if !known {
+			continue
+		}
+		// cond is true iff V == !neg; the edge on which cond contradicts val is cut
+		condVal := val != neg
+		if condVal {
+			out[Edge{b, 1}] = true
+		} else {
+			out[Edge{b, 0}] = true
 		}
 	}
 	return out
@@ -784,7 +890,10 @@ func CorrelatedCuts(fn *ssa.Function, sink ssa.Instruction) map[Edge]bool {
 // GuardedByCorr is GuardedBy that also prunes paths contradicting the boolean values implied by
 // the branches dominating the sink.
 func GuardedByCorr(fn *ssa.Function, sink ssa.Instruction, guards ...Guard) (bool, []int) {
+	saved := Assumed
+	Assumed = DominatingConds(fn, sink)
 	cut, counts := PassEdges(fn, guards...)
+	Assumed = saved
 	for e := range CorrelatedCuts(fn, sink) {
 		cut[e] = true
 	}
@@ -796,8 +905,9 @@ func GuardedByCorr(fn *ssa.Function, sink ssa.Instruction, guards ...Guard) (boo
 // Guard-wrapper summaries (interprocedural, depth 2)
 
 // wrapperCall decodes a condition that tests the result of a module function:
-//   kind "bool": atom is the boolean result of call (#idx of a tuple)
-//   kind "nil":  atom is result == nil
+//
+//	kind "bool": atom is the boolean result of call (#idx of a tuple)
+//	kind "nil":  atom is result == nil
 func wrapperCall(a CondAtom) (call *ssa.Call, idx int, kind string) {
 	get := func(v ssa.Value) (*ssa.Call, int) {
 		switch x := v.(type) {
@@ -829,6 +939,8 @@ func wrapperCall(a CondAtom) (call *ssa.Call, idx int, kind string) {
 	}
 	return nil, 0, ""
 }
+
+func InModule(fn *ssa.Function) bool { return inModule(fn) }
 
 func inModule(fn *ssa.Function) bool {
 	if fn == nil || fn.Blocks == nil {
@@ -925,34 +1037,65 @@ func summariseWrapper(b *ssa.BasicBlock, a CondAtom, depth int, guards []Guard, 
 		cls int
 		via *Edge // the edge into a phi block, when the class comes from a phi edge
 		val ssa.Value
+		neg bool // the returned value is !val
 	}
 	var pts []point
+	var expand func(v ssa.Value, neg bool, at ssa.Instruction, via *Edge, d int)
+	expand = func(v ssa.Value, neg bool, at ssa.Instruction, via *Edge, d int) {
+		if kind == "bool" && d < 4 {
+			switch x := v.(type) {
+			case *ssa.UnOp:
+				if x.Op == token.NOT {
+					expand(x.X, !neg, at, via, d+1)
+					return
+				}
+			case *ssa.Phi:
+				for i, e := range x.Edges {
+					pred := x.Block().Preds[i]
+					var v2 *Edge
+					for si, su := range pred.Succs {
+						if su == x.Block() {
+							v2 = &Edge{pred, si}
+						}
+					}
+					expand(e, neg, pred.Instrs[len(pred.Instrs)-1], v2, d+1)
+				}
+				return
+			}
+		} else if phi, isPhi := v.(*ssa.Phi); isPhi && d == 0 && phi.Block() == at.Block() {
+			for i, e := range phi.Edges {
+				pred := phi.Block().Preds[i]
+				var v2 *Edge
+				for si, su := range pred.Succs {
+					if su == phi.Block() {
+						v2 = &Edge{pred, si}
+					}
+				}
+				pts = append(pts, point{pred.Instrs[len(pred.Instrs)-1], retClass(e, kind), v2, e, false})
+			}
+			return
+		}
+		cls := retClass(v, kind)
+		if neg {
+			cls = -cls
+		}
+		pts = append(pts, point{at, cls, via, v, neg})
+	}
 	AllInstrs(callee, func(in ssa.Instruction) {
 		ret, ok := in.(*ssa.Return)
 		if !ok || idx >= len(ret.Results) {
 			return
 		}
-		v := ret.Results[idx]
-		if phi, isPhi := v.(*ssa.Phi); isPhi && phi.Block() == ret.Block() {
-			for i, e := range phi.Edges {
-				pred := phi.Block().Preds[i]
-				var via *Edge
-				for si, su := range pred.Succs {
-					if su == phi.Block() {
-						via = &Edge{pred, si}
-					}
-				}
-				pts = append(pts, point{pred.Instrs[len(pred.Instrs)-1], retClass(e, kind), via, e})
-			}
-			return
-		}
-		pts = append(pts, point{ret, retClass(v, kind), nil, v})
+		expand(ret.Results[idx], false, ret, nil, 0)
 	})
 	if len(pts) == 0 {
 		return
 	}
 	// joint evaluation: the guards form a disjunction (any pass edge discharges)
 	cut, innerCnt := passEdgesDepth(callee, depth+1, guards...)
+	for e := range assumedCuts(callee) {
+		cut[e] = true
+	}
 	// nil-kind summaries are evaluated path-sensitively inside the callee
 	var nilReachRets map[*ssa.Return]map[int]bool // return -> set of classes it can yield on uncut paths
 	if kind == "nil" {
@@ -981,12 +1124,12 @@ func summariseWrapper(b *ssa.BasicBlock, a CondAtom, depth int, guards []Guard, 
 	}
 	reach := ReachBlocks(callee, nil, cut)
 	// a returned boolean that is itself a guard atom: returning it with the passing value discharges
-	atomPass := func(v ssa.Value, cls int) bool {
+	atomPass := func(v ssa.Value, neg bool, cls int) bool {
 		a2 := substTop(NormCond(v))
 		for _, g := range guards {
 			if m, passVal := g.Match(a2); m {
-				// value v == (atom XOR negated); class +1 means v true
-				atomVal := (cls == 1) != a2.Negated
+				// returned r = (atom XOR a2.Negated) XOR neg; class +1 means r true
+				atomVal := ((cls == 1) != a2.Negated) != neg
 				if atomVal == passVal {
 					return true
 				}
@@ -1019,7 +1162,7 @@ func summariseWrapper(b *ssa.BasicBlock, a CondAtom, depth int, guards []Guard, 
 			if p.via != nil && cut[*p.via] {
 				continue
 			}
-			if p.cls == 0 && p.val != nil && atomPass(p.val, cls) {
+			if p.cls == 0 && p.val != nil && atomPass(p.val, p.neg, cls) {
 				continue
 			}
 			if reach[p.at.Block()] {
@@ -1052,4 +1195,67 @@ func summariseWrapper(b *ssa.BasicBlock, a CondAtom, depth int, guards []Guard, 
 			edges[Edge{b, 1}] = true
 		}
 	}
+}
+
+// MustPass: every path from the entry of fn to a return executes an instruction satisfying pred
+// (edges of cutOf(fn), when given, are not traversed).
+func MustPass(fn *ssa.Function, pred func(ssa.Instruction) bool, cutOf func(*ssa.Function) map[Edge]bool) bool {
+	if fn == nil || len(fn.Blocks) == 0 {
+		return false
+	}
+	var cut map[Edge]bool
+	if cutOf != nil {
+		cut = cutOf(fn)
+	}
+	isRet := func(in ssa.Instruction) bool { _, ok := in.(*ssa.Return); return ok }
+	found, _ := PathAvoiding(fn, nil, isRet, pred, cut)
+	return !found
+}
+
+// Deep lifts an instruction predicate through extracted helpers: the result also holds for a static
+// call of a module function all of whose paths execute an instruction satisfying the predicate
+// (recursively, at most depth levels; callee parameters are substituted by the call's arguments).
+func Deep(pred func(ssa.Instruction) bool, depth int, cutOf func(*ssa.Function) map[Edge]bool) func(ssa.Instruction) bool {
+	var deep func(d int) func(ssa.Instruction) bool
+	active := map[*ssa.Function]bool{}
+	deep = func(d int) func(ssa.Instruction) bool {
+		return func(in ssa.Instruction) bool {
+			if pred(in) {
+				return true
+			}
+			if d >= depth {
+				return false
+			}
+			ci, ok := in.(ssa.CallInstruction)
+			if !ok {
+				return false
+			}
+			if _, isGo := in.(*ssa.Go); isGo {
+				return false
+			}
+			if _, isDefer := in.(*ssa.Defer); isDefer {
+				return false
+			}
+			callee := ci.Common().StaticCallee()
+			if !inModule(callee) || active[callee] {
+				return false
+			}
+			active[callee] = true
+			defer delete(active, callee)
+			saved := ParamSubst
+			ns := map[ssa.Value]ssa.Value{}
+			for k, v := range saved {
+				ns[k] = v
+			}
+			for i, p := range callee.Params {
+				if i < len(ci.Common().Args) {
+					ns[p] = ci.Common().Args[i]
+				}
+			}
+			ParamSubst = ns
+			defer func() { ParamSubst = saved }()
+			return MustPass(callee, deep(d+1), cutOf)
+		}
+	}
+	return deep(0)
 }
